@@ -457,4 +457,86 @@ theorem verifyFull_eq_verify (isX : ℤ → Bool) (hX : ∀ P, L.abs P ≠ 0 →
       | ok u => rw [hc] at hv'; simp [hrs.1, hrs.2] at hv'
       | error e => rfl
 
+/-! ## T3 (soundness on arbitrary signatures): a recovered key verifies -/
+
+include L in
+/-- whatever `_recover_pub_key_` answers — any `key_id`, any `(c, r, s)` with `r, s ∈ 1..n-1`, either cofactor arm —
+    is a key under which `(r, s)` verifies for `c` -/
+theorem recover_sound {primeOrder lowerS : Bool} {kid c r s : ℤ} {Q : α}
+    (hr : 0 < r ∧ r < o.n) (hs : 0 < s ∧ s < o.n)
+    (h : recover o primeOrder kid c r s lowerS = .ok Q) : verify o c Q r s = true := by
+  have hn := L.n_pos
+  obtain ⟨r1, hr1, -, -, hrr1⟩ := modInv_n L (cast_ne_zero L hr.1 hr.2)
+  have hcore : verifyCore o c Q r s false = .ok () := by
+    unfold recover at h
+    by_cases hlow : lowerS = true ∧ s > o.n / 2
+    · simp only [hlow, and_self, if_true] at h; cases h
+    by_cases hrange : primeOrder = true ∧ ¬(0 ≤ r + kid / 2 * o.n ∧ r + kid / 2 * o.n < o.p)
+    · simp only [hlow, if_false, hrange, not_false_eq_true, and_self, if_true] at h; cases h
+    · simp only [hlow, if_false, hrange, hr1] at h
+      split at h
+      · cases h
+      · rename_i Ke hlift
+        obtain ⟨hKe0, hKex, -⟩ := L.liftX_some _ _ hlift
+        have hK' : L.abs (if kid % 2 = 1 then o.neg Ke else Ke) ≠ 0 ∧
+            o.x (if kid % 2 = 1 then o.neg Ke else Ke) =
+              (if primeOrder = true then r + kid / 2 * o.n else (r + kid / 2 * o.n) % o.p) := by
+          split
+          · exact ⟨by rw [L.abs_neg]; exact neg_ne_zero.mpr hKe0, by rw [L.x_neg]; exact hKex⟩
+          · exact ⟨hKe0, hKex⟩
+        generalize (if kid % 2 = 1 then o.neg Ke else Ke) = K' at h hK'
+        by_cases hz : o.isZero (o.dmul (r1 * s % o.n) K' (-r1 * c % o.n) o.gen) = true
+        · simp only [hz, if_true] at h; cases h
+        simp only [hz, if_false] at h
+        cases primeOrder with
+        | false =>
+          simp only [Bool.false_eq_true, if_false] at h
+          cases hv : verifyCore o c (o.dmul (r1 * s % o.n) K' (-r1 * c % o.n) o.gen) r s false with
+          | error e => rw [hv] at h; cases h
+          | ok u =>
+            rw [hv] at h
+            cases h
+            cases u
+            exact hv
+        | true =>
+          simp only [if_true] at h hK'
+          cases h
+          have hxrange : 0 ≤ r + kid / 2 * o.n ∧ r + kid / 2 * o.n < o.p := by
+            by_contra hc
+            exact hrange ⟨rfl, hc⟩
+          apply verifyCore_ok_of L hs hK'.1 (K0 := K')
+          · rw [hK'.2, Int.add_mul_emod_self_right, Int.emod_eq_of_lt (le_of_lt hr.1) hr.2]
+          · intro w hw
+            left
+            rw [abs_verifyPoint' L, L.abs_dmul, smul_add, ← mul_zsmul, ← mul_zsmul, add_assoc, ← add_zsmul]
+            have e1 : (r * w * (r1 * s % o.n)) • L.abs K' = (1 : ℤ) • L.abs K' := by
+              apply abs_zsmul_congr L
+              push_cast
+              rw [cast_emod L]
+              push_cast
+              linear_combination (s : ZMod (ord o)) * w * hrr1 + hw
+            have e2 : (r * w * (-r1 * c % o.n) + c * w) • L.abs o.gen = (0 : ℤ) • L.abs o.gen := by
+              apply abs_zsmul_congr L
+              push_cast
+              rw [cast_emod L]
+              push_cast
+              linear_combination (-(c : ZMod (ord o)) * w) * hrr1
+            rw [e1, e2, one_zsmul, zero_zsmul, add_zero]
+  unfold verify
+  rw [hcore]
+  simp [hr, hs]
+
+include L in
+/-- T3 for the enumeration: every key `_recover_pub_keys_` lists verifies the signature -/
+theorem recoverAll_sound (h : ℕ) {c r s : ℤ} {lowerS : Bool} (hr : 0 < r ∧ r < o.n) (hs : 0 < s ∧ s < o.n)
+    (Q : α) (hQ : Q ∈ recoverAll o h c r s lowerS) : verify o c Q r s = true := by
+  unfold recoverAll at hQ
+  obtain ⟨kid, -, hk⟩ := List.mem_filterMap.mp hQ
+  cases hrec : recover o (h == 1) (kid : ℕ) c r s lowerS with
+  | error e => rw [hrec] at hk; cases hk
+  | ok Q' =>
+    rw [hrec] at hk
+    cases hk
+    exact recover_sound L hr hs hrec
+
 end Btc.Ecdsa
